@@ -117,5 +117,5 @@ def main(tier, seed):
     # level-2 evaluation for all path lengths and pixel counts (checks/l2sym.py): sensor frame, pixel positions, handedness, aggregator argument and output shape
     from checks import l2sym
 
-    l2sym.report_fails(rep, l2sym.run(rep, tier, fams=['A', 'B', 'E'], stride={'B': 3}))
+    l2sym.report_fails(rep, l2sym.run(rep, tier, fams=['A', 'B', 'E'], stride={'B': 3}, kinds=("element", "shape", "agg", "safety")))
     return rep.finish()
